@@ -315,6 +315,11 @@ func (x *Exec) wf(v Value, alloc *Term) *Term {
 	var fs []*Term
 	for k, lf := range lay.Leaves {
 		switch lf.Role {
+		case "":
+			if lf.Sort.Kind == SInt { // a Go int in math-int mode still fits 64 bits
+				lim := c.bigInt(pow2(63))
+				fs = append(fs, c.IntCmp(">=", v.L[k], c.IntBin("-", c.IntLit(0), lim)), c.IntCmp("<", v.L[k], lim))
+			}
 		case "ref":
 			fs = append(fs, c.IntCmp("<=", v.L[k], alloc))
 		case "base":
